@@ -1036,6 +1036,35 @@ def _elemwise_handle_where(*args, **kwargs):
     return function(*args, where=where, out=out, **kwargs)
 
 
+def snapshot_collections(obj):
+    """Detach dask_array collections nested in plain containers from in-place edits.
+
+    ``Expr.__new__`` converts only *top-level* operands from collections to
+    (immutable) expressions.  An ``Array`` nested in a dict/list/tuple operand
+    stays a live handle: a later ``x[...] = v`` / ``out=x`` swaps the expression
+    behind it, silently changing what the enclosing expression computes while
+    its name stays the same.  ``Array.copy()`` shares the immutable expression
+    but not the mutable pointer to it, so the operand keeps denoting the array
+    it was built from.
+    """
+    from dask_array._collection import Array
+
+    if isinstance(obj, Array):
+        return obj.copy()
+    typ = type(obj)
+    if typ in (list, tuple):
+        new = [snapshot_collections(o) for o in obj]
+        if all(n is o for n, o in zip(new, obj)):
+            return obj
+        return typ(new)
+    if typ is dict:
+        new = {k: snapshot_collections(v) for k, v in obj.items()}
+        if all(new[k] is v for k, v in obj.items()):
+            return obj
+        return new
+    return obj
+
+
 def _normalize_out(out):
     """Normalize an ``out=`` argument: unwrap 1-tuples, allow only None or a dask Array."""
     from dask_array._collection import Array
